@@ -1142,6 +1142,25 @@ def shrink(case, what):
                 best = common.ddmin(samples, lambda ss: ok(with_samples(ss)))
                 if len(best) < len(samples):
                     cur = with_samples(best)
+    # names, virtual templates and getters nothing refers to any more
+    for pi in range(len(cur['parts'])):
+        for entry in list(cur['parts'][pi]['raw']):
+            cand = copy.deepcopy(cur)
+            cand['parts'][pi]['raw'] = [x for x in cand['parts'][pi]['raw'] if x != entry]
+            if ok(cand):
+                cur = cand
+        for v in list(cur['parts'][pi]['virt']):
+            cand = copy.deepcopy(cur)
+            cand['parts'][pi]['virt'] = [x for x in cand['parts'][pi]['virt'] if x != v]
+            if ok(cand):
+                cur = cand
+        used = set(i for _, i in cur['parts'][pi]['raw']) | set(op[2] for op in cur['ops'] if op[0] == 'setg')
+        for gi, g in enumerate(cur['parts'][pi]['getters']):
+            if gi not in used and g['samples']:
+                cand = copy.deepcopy(cur)
+                cand['parts'][pi]['getters'][gi]['samples'] = []
+                if ok(cand):
+                    cur = cand
     # keyword properties of the remaining ops
     for oi, op in enumerate(cur['ops']):
         if op[0] == 'get' and op[4]:
